@@ -11,6 +11,7 @@ import (
 	"time"
 
 	"evylang.dev/evy/vdrv/core"
+	"evylang.dev/evy/vsim/prng"
 	"evylang.dev/evy/vsim/simos"
 )
 
@@ -47,6 +48,7 @@ type realRun struct {
 	stderr  string
 	files   []fileState
 	logTail string
+	log     string
 }
 
 func (d *D) runReal(sc *core.Scenario, inject string) *realRun {
@@ -107,6 +109,7 @@ func (d *D) runReal(sc *core.Scenario, inject string) *realRun {
 	if b, err := os.ReadFile(logf); err == nil {
 		s := string(b)
 		rr.hit = strings.Contains(s, "(INJECTED)") || strings.Contains(s, "+++ killed by SIGKILL +++")
+		rr.log = s
 		if len(s) > 1500 {
 			s = s[len(s)-1500:]
 		}
@@ -136,24 +139,64 @@ func (rr *realRun) asOutcome(faulted bool) *outcome {
 	return o
 }
 
-// injections lists the strace injections tried for a scenario, in a fixed order.
-func injections(n int) []string {
-	var out []string
+// injections derives the strace injections from the fault-free log: for every
+// traced call name, every occurrence from the first line that mentions one of
+// the scenario's files onward gets an error injection and a SIGKILL injection.
+// A seeded subset of n is returned (strace counts occurrences per thread, so
+// what an injection really hit is read back from its own log).
+func injections(sc *core.Scenario, log string, n int, r *prng.R) []string {
+	count := map[string]int{}
+	var all []string
+	interesting := false
 	k := 0
-	for when := 1; len(out) < n && when <= 40; when++ {
-		for _, call := range []string{"openat", "write", "close", "renameat", "fchmod"} {
-			if len(out) >= n {
-				break
+	for _, line := range strings.Split(log, "\n") {
+		f := strings.Fields(line)
+		if len(f) < 2 {
+			continue
+		}
+		call := f[1]
+		if i := strings.Index(call, "("); i > 0 {
+			call = call[:i]
+		} else {
+			continue
+		}
+		count[call]++
+		if !interesting {
+			for _, fl := range sc.Files {
+				if strings.Contains(line, "\""+filepath.Base(fl.Name)+"\"") || strings.Contains(line, "\""+fl.Name+"\"") {
+					interesting = true
+				}
 			}
-			if k%2 == 0 {
-				out = append(out, fmt.Sprintf("%s:error=%s:when=%d", call, injectErr[(k/2)%len(injectErr)], when))
-			} else {
-				out = append(out, fmt.Sprintf("%s:signal=SIGKILL:when=%d", call, when))
-			}
-			k++
+		}
+		if !interesting || call == "read" {
+			continue
+		}
+		when := count[call]
+		if when > 60000 {
+			continue
+		}
+		all = append(all, fmt.Sprintf("%s:error=%s:when=%d", call, injectErr[k%len(injectErr)], when))
+		all = append(all, fmt.Sprintf("%s:signal=SIGKILL:when=%d", call, when))
+		k++
+	}
+	if len(all) <= n {
+		return all
+	}
+	perm := r.Perm(len(all))
+	out := make([]string, 0, n)
+	for _, p := range perm[:n] {
+		out = append(out, all[p])
+	}
+	sortStrings(out)
+	return out
+}
+
+func sortStrings(a []string) {
+	for i := 1; i < len(a); i++ {
+		for j := i; j > 0 && a[j] < a[j-1]; j-- {
+			a[j], a[j-1] = a[j-1], a[j]
 		}
 	}
-	return out
 }
 
 func (d *D) conformance(sc *core.Scenario, ctx *core.Ctx, n int) {
@@ -191,7 +234,7 @@ func (d *D) conformance(sc *core.Scenario, ctx *core.Ctx, n int) {
 		ctx.Violate(c, v)
 		return
 	}
-	for _, inj := range injections(n) {
+	for _, inj := range injections(sc, rr.log, n, core.ItemRNG(sc.Seed, "C18-strace", sc.Index)) {
 		r := d.runReal(sc, inj)
 		ctx.Inc("evaluations", 1)
 		ctx.Inc("conformance_runs", 1)
